@@ -286,3 +286,158 @@ Proof.
 Qed.
 
 (* totality: IotaDID::parse never panics on a percent-free input *)
+(* ---- the other construction routes: try_from_core / TryFrom<CoreDID> / serde, and the id of a deserialised IotaDocument ---- *)
+Lemma lower_colon c : (ascii_lower c =? 58) = (c =? 58).
+Proof.
+  unfold ascii_lower. destruct (N.leb_spec 65 c); destruct (N.leb_spec c 90); cbn [andb]; try reflexivity.
+  destruct (N.eqb_spec (c + 32) 58); destruct (N.eqb_spec c 58); try reflexivity; lia.
+Qed.
+Lemma split_colon_lower l : split_colon (map ascii_lower l) =
+  match split_colon l with Some (n, t) => Some (map ascii_lower n, map ascii_lower t) | None => None end.
+Proof.
+  induction l as [|c r IH]; [reflexivity|]. cbn [map split_colon]. rewrite lower_colon. destruct (c =? 58); [reflexivity|].
+  rewrite IH. destruct (split_colon r) as [[a b]|]; reflexivity.
+Qed.
+Lemma map_lower_not_upper l : forallb not_upper (map ascii_lower l) = true.
+Proof. induction l as [|c l IH]; [reflexivity|]. cbn [map forallb]. rewrite ascii_lower_not_upper. exact IH. Qed.
+Lemma hexdig_lower c : is_hexdig c = true -> is_hexdig (ascii_lower c) = true.
+Proof.
+  intros H. unfold ascii_lower. destruct ((65 <=? c) && (c <=? 90)) eqn:E; [|exact H].
+  apply andb_prop in E as [E1 E2]. apply N.leb_le in E1, E2.
+  (* an upper-case hex digit: 65..70 *)
+  assert (c <= 70) as Hc.
+  { unfold is_hexdig, is_digit in H. repeat match type of H with context [?a <=? ?b] => destruct (N.leb_spec a b); try lia end; cbn in H; discriminate. }
+  unfold is_hexdig, is_digit.
+  replace (97 <=? c + 32) with true by (symmetry; apply N.leb_le; lia).
+  replace (c + 32 <=? 102) with true by (symmetry; apply N.leb_le; lia).
+  cbn [andb orb]. rewrite orb_true_r. reflexivity.
+Qed.
+Lemma tag_ok_lower t : tag_ok t = true -> tag_ok (map ascii_lower t) = true.
+Proof.
+  unfold tag_ok. destruct t as [|z [|x r]]; try discriminate. intros H.
+  apply andb_prop in H as [H Hh]. apply andb_prop in H as [H Hl]. apply andb_prop in H as [Hz Hx].
+  apply N.eqb_eq in Hz, Hx. subst. cbn [map]. change (ascii_lower 48) with 48. change (ascii_lower 120) with 120.
+  change (48 =? 48) with true. change (120 =? 120) with true. rewrite map_length, Hl. cbn [andb].
+  rewrite forallb_forall in *. intros y Hy. apply in_map_iff in Hy as [c [<- Hc]]. apply hexdig_lower, Hh, Hc.
+Qed.
+Lemma net_lower n : net_ok n = true -> map ascii_lower n = n.
+Proof.
+  unfold net_ok. intros H. apply andb_prop in H as [_ H]. induction n as [|c n IH]; [reflexivity|].
+  cbn [forallb map] in *. apply andb_prop in H as [Hc Hn]. rewrite (IH Hn). f_equal.
+  apply ascii_lower_stable. unfold lower_stable. apply lowdig_mid in Hc as Hm. rewrite (mid_lt128 _ Hm).
+  apply lowdig_not_upper in Hc. unfold not_upper in Hc. rewrite Hc. reflexivity.
+Qed.
+Lemma mid_lower c : char_method_id c = true -> char_method_id (ascii_lower c) = true.
+Proof.
+  intros H. unfold ascii_lower. destruct ((65 <=? c) && (c <=? 90)) eqn:E; [|exact H].
+  apply andb_prop in E as [E1 E2]. apply N.leb_le in E1, E2.
+  unfold char_method_id, is_lower.
+  replace (97 <=? c + 32) with true by (symmetry; apply N.leb_le; lia).
+  replace (c + 32 <=? 122) with true by (symmetry; apply N.leb_le; lia).
+  cbn [andb]. rewrite orb_true_r. reflexivity.
+Qed.
+
+(* what the checks of iota_from_core say about the method id: characters, and the lower-cased id is valid too *)
+Lemma from_core_checks i : let '(n, t) := denorm i in tag_ok t = true -> net_ok n = true ->
+  forallb char_method_id i = true /\ i <> []
+  /\ denorm (map ascii_lower i) = (n, map ascii_lower t) /\ tag_ok (map ascii_lower t) = true.
+Proof.
+  unfold denorm. rewrite split_colon_lower. destruct (split_colon i) as [[n t]|] eqn:S.
+  - intros Tt Nn. destruct (split_colon_spec _ _ _ S) as [-> _]. destruct (tag_class _ Tt) as [Ct Nt]. destruct (net_class _ Nn) as [Cn [Nne _]].
+    split; [rewrite forallb_app, Cn; cbn [forallb andb]; exact Ct|]. split; [destruct n; [contradiction|discriminate]|].
+    rewrite (net_lower _ Nn). split; [reflexivity|exact (tag_ok_lower _ Tt)].
+  - intros Tt Nn. destruct (tag_class _ Tt) as [Ct Nt]. split; [exact Ct|]. split; [exact Nt|]. split; [reflexivity|exact (tag_ok_lower _ Tt)].
+Qed.
+
+Theorem iota_from_core_shape m i v : iota_from_core (m, i) = Ok v ->
+  m = IOTA /\ tag_ok (iota_tag v) = true /\ net_ok (iota_network v) = true /\ iota_normal v
+  /\ (v = iota_tag v \/ v = iota_network v ++ 58 :: iota_tag v) /\ forallb not_upper v = true
+  /\ v = iota_normalize (map ascii_lower i).
+Proof.
+  unfold iota_from_core. destruct (list_eqb m IOTA) eqn:Em; cbn [negb]; [|discriminate]. apply list_eqb_eq in Em.
+  pose proof (from_core_checks i) as C. destruct (denorm i) as [n t] eqn:D.
+  destruct (tag_ok t) eqn:Tt; cbn [negb]; [|discriminate]. destruct (net_ok n) eqn:Nn; cbn [negb]; [|discriminate].
+  destruct (C eq_refl eq_refl) as [Ci [Ni [Dl Ttl]]]. intros H; inversion H; subst v; clear H.
+  split; [exact Em|]. set (i' := map ascii_lower i) in *. set (t' := map ascii_lower t) in *.
+  assert (forallb not_upper i' = true) as Ui by apply map_lower_not_upper.
+  assert (forallb not_upper t' = true) as Ut by apply map_lower_not_upper.
+  unfold iota_normalize, iota_tag, iota_network, iota_normal. unfold denorm in Dl.
+  destruct (split_colon i') as [[n0 t0]|] eqn:S.
+  - inversion Dl; subst n0 t0; clear Dl. destruct (list_eqb n IOTA) eqn:En.
+    + pose proof (tag_no_colon _ Ttl) as Nc.
+      assert (split_colon t' = None) as St.
+      { destruct (split_colon t') as [[a b]|] eqn:X; [|reflexivity].
+        apply split_colon_spec in X as [X _]. rewrite X in Nc. rewrite existsb_app in Nc. cbn in Nc. rewrite orb_true_r in Nc. discriminate. }
+      unfold denorm. rewrite St. cbn [fst snd]. apply list_eqb_eq in En. subst n. repeat split; auto.
+    + unfold denorm. rewrite S. cbn [fst snd]. apply list_eqb_false in En. destruct (split_colon_spec _ _ _ S) as [Ei _].
+      repeat split; auto.
+  - inversion Dl; subst n; clear Dl. unfold denorm. rewrite S. cbn [fst snd].
+    assert (t' = i') as Et.
+    { unfold t', i'. unfold denorm in D. destruct (split_colon i) as [[a b]|] eqn:S0; [|inversion D; reflexivity].
+      unfold i' in S. rewrite split_colon_lower, S0 in S. discriminate. }
+    rewrite <- Et. repeat split; auto.
+Qed.
+
+(* lower-casing a string of ASCII bytes is the byte-wise map *)
+Lemma to_lower_ascii_n : forall n l, (length l <= n)%nat -> forallb (fun c => c <? 128) l = true -> to_lower l = map ascii_lower l.
+Proof.
+  induction n as [|n IH]; intros l Hl H.
+  - destruct l; [reflexivity|cbn in Hl; lia].
+  - destruct l as [|c [|a r1]]; [reflexivity|reflexivity|].
+    cbn [length] in Hl. pose proof H as H0. cbn [forallb] in H. apply andb_prop in H as [Hc H]. apply N.ltb_lt in Hc.
+    rewrite to_lower_cons2.
+    replace (c =? 196) with false by (symmetry; apply N.eqb_neq; lia). cbn [andb].
+    assert (to_lower (a :: r1) = map ascii_lower (a :: r1)) as E by (apply IH; [cbn [length]; lia|exact H]).
+    destruct r1 as [|b r2].
+    + rewrite E. reflexivity.
+    + replace (c =? 226) with false by (symmetry; apply N.eqb_neq; lia). cbn [andb]. rewrite E. reflexivity.
+Qed.
+
+(* every route agrees with IotaDID::parse: what try_from_core (TryFrom<CoreDID>, serde) accepts, parse accepts with the SAME value *)
+Theorem iota_try_from_core_agrees s v : iota_try_from_core s = Ok v -> iota_parse s = Ok v.
+Proof.
+  unfold iota_try_from_core. intros H. apply obind_ok in H as [[m i] [P F]].
+  destruct (iota_from_core_shape m i v F) as [-> [_ [_ [_ [_ [_ Ev]]]]]].
+  destruct (core_did_parse_sound _ _ _ P) as [Es _].
+  (* the checks give the character class of i *)
+  unfold iota_from_core in F. change (list_eqb IOTA IOTA) with true in F. cbn [negb] in F.
+  pose proof (from_core_checks i) as C. destruct (denorm i) as [n t] eqn:D.
+  destruct (tag_ok t) eqn:Tt; cbn [negb] in F; [|discriminate]. destruct (net_ok n) eqn:Nn; cbn [negb] in F; [|discriminate].
+  destruct (C eq_refl eq_refl) as [Ci [Ni [Dl Ttl]]].
+  assert (to_lower s = iota_to_string (map ascii_lower i)) as L.
+  { rewrite Es. rewrite (to_lower_ascii_n (length ([100; 105; 100; 58] ++ IOTA ++ [58] ++ i)) _ (le_n _)).
+    - rewrite !map_app. reflexivity.
+    - rewrite !forallb_app. cbn [forallb IOTA andb]. cbn. revert Ci. apply forallb_imp. exact mid_lt128. }
+  assert (core_did_parse (iota_to_string (map ascii_lower i)) = Ok (IOTA, map ascii_lower i)) as Pc.
+  { change (iota_to_string (map ascii_lower i)) with ([100; 105; 100; 58] ++ IOTA ++ [58] ++ map ascii_lower i).
+    apply core_did_complete; try discriminate; try reflexivity.
+    - destruct i; [contradiction|discriminate].
+    - rewrite forallb_forall in *. intros y Hy. apply in_map_iff in Hy as [c [<- Hc]]. apply mid_lower, Ci, Hc. }
+  unfold iota_parse. rewrite L, Pc. change (list_eqb IOTA IOTA) with true. cbn [negb]. rewrite Dl, Ttl, Nn. cbn [negb]. rewrite Ev. reflexivity.
+Qed.
+
+(* the pinned tree (before fix e8fe5c5) kept an upper-case tag: refuted *)
+Theorem iota_from_core_pinned_refuted : exists s v, obind (core_did_parse s) iota_from_core_pinned = Ok v /\ forallb not_upper v = false
+  /\ exists w, iota_parse s = Ok w /\ w <> v.
+Proof.
+  exists (DID_IOTA_PREFIX ++ [48; 120] ++ repeat 70 64). eexists. split; [vm_compute; reflexivity|]. split; [vm_compute; reflexivity|].
+  eexists. split; [vm_compute; reflexivity|]. vm_compute. discriminate.
+Qed.
+
+(* the id of a deserialised IotaDocument is an IOTA DID held verbatim in normal form *)
+Theorem iota_doc_id_spec s v : iota_doc_id s = Ok v -> iota_parse s = Ok v /\ s = iota_to_string v.
+Proof.
+  unfold iota_doc_id. intros H. apply obind_ok in H as [[m i] [P H]]. apply obind_ok in H as [v0 [F H]]. cbn [snd] in H.
+  destruct (list_eqb v0 i) eqn:E; [|discriminate]. inversion H; subst v0; clear H. apply list_eqb_eq in E. subst i.
+  split.
+  - apply iota_try_from_core_agrees. unfold iota_try_from_core. rewrite P. exact F.
+  - destruct (iota_from_core_shape _ _ _ F) as [-> _]. destruct (core_did_parse_sound _ _ _ P) as [Es _]. exact Es.
+Qed.
+(* the pinned tree accepted ids outside the normal form: check_validity alone *)
+Definition iota_doc_id_pinned (s : list N) : outcome (list N) did_err :=
+  obind (core_did_parse s) (fun mi => obind (iota_from_core_pinned mi) (fun _ => Ok (snd mi))).
+Theorem iota_doc_id_pinned_refuted : exists s v, iota_doc_id_pinned s = Ok v /\ ~ iota_normal v.
+Proof.
+  exists (DID_IOTA_PREFIX ++ IOTA ++ [58] ++ [48; 120] ++ repeat 49 64). eexists. split; [vm_compute; reflexivity|].
+  unfold iota_normal. vm_compute. intros H. apply H. reflexivity.
+Qed.
